@@ -32,6 +32,7 @@ class Spec:
         # documented customisation of the Python package (generator/plugins/python: issue 344)
         self.py_open_extra = {"CompletionItemKind"} if python_customizations else set()
         self._flat = {}
+        self.open_empty_objects = False
         self._check_discipline()
 
     # ---- structures -------------------------------------------------------------------
@@ -271,6 +272,8 @@ class Spec:
         if not isinstance(v, dict):
             return False
         names = {p["name"] for p in props}
+        if not props and self.open_empty_objects:
+            return self._is_json(v)  # property-less literal / structure read as an extension point (C17 reading)
         for key in v:
             if key not in names:
                 return False
